@@ -264,15 +264,17 @@ class SymMode(BaseMode):
             bump("refuted_as_expected" if not claim else "skipped")
             return
         try:
-            st, _ = core.ENG.prove(claim, 3000)
-            if st == "cex":
+            # plain satisfiability query for a counterexample of the cross-wired claim (no witness search: models can be expensive on paths
+            # with uninterpreted functions)
+            r, _ = core.ENG._check([z3.Not(claim)], 2000)
+            if r == "sat":
                 bump("refuted_as_expected")
-            elif st == "unknown":
+            elif r == "unknown":
                 bump("unknown")
             else:
                 c2 = core.cmp_zero(b.q - b2.q, "eq")
-                st2 = "proved" if c2 is True else ("cex" if c2 is False else core.ENG.prove(c2, 3000)[0])
-                bump("skipped_equal_under_path_condition" if st2 == "proved" else "proved_unexpectedly")
+                r2 = "unsat" if c2 is True else ("sat" if c2 is False else core.ENG._check([z3.Not(c2)], 2000)[0])
+                bump("skipped_equal_under_path_condition" if r2 == "unsat" else "proved_unexpectedly")
         except (HarnessError, z3.Z3Exception):
             bump("unknown")
 
